@@ -189,6 +189,21 @@ func runSeq(c *vkit.Ctx, o optSet, seq []string, shared bool, in any, other ...b
 		if !shared {
 			cfg = o.build(root)
 		}
+		if (i+len(seq)+len(o.Name))%3 == 0 {
+			// MatchSnapshot without values: logs a warning, does nothing else - every time
+			fpE := fingerprint(cfg)
+			cfg.MatchSnapshot(t)
+			sg := t.Take()
+			if fp := fingerprint(cfg); fp != fpE {
+				c.Violate("config-mutated-by-call", "", fmt.Sprintf("options {%s}: MatchSnapshot without values (before call %d of %v) changed the Config: %s -> %s", o.Name, i, seq, fpE, fp), in)
+				ok = false
+			}
+			if len(sg.Errors) != 0 || len(sg.Logs) != 1 {
+				c.Violate("outcome-depends-on-earlier-calls", "", fmt.Sprintf("options {%s}: MatchSnapshot without values before call %d of %v gave %d errors and %d logs (one warning is logged every time)", o.Name, i, seq, len(sg.Errors), len(sg.Logs)), in)
+				ok = false
+			}
+			c.Count("calls_without_values", 1)
+		}
 		fp0 := fingerprint(cfg)
 		if isOther(i) {
 			callEntryOtherFile(cfg, t, api, i)
